@@ -42,8 +42,8 @@ PROPS = {
         level='proof', verus=['c01_parse', 'c05_accessors'],
         trusted_base=[A_TOOLS, A_EXTRACT, 'A-LEAF-LINK: decode helper contracts = K:k_take_till_nul, k_parse_binary_entry, k_dec_u16/u32/u64 on the real functions with real nom', 'A-LOSSY: from_utf8_lossy is a total function of the bytes'],
         assumptions=['NOT covered: get_file_paths, get_file_entries, get_dependencies, get_changelog_entries, get_scriptlet (multizip / try_fold / collect / Path::join bodies that Verus rejects and CBMC cannot finish): "file lists assembled as directory[dirindex]+basename" and "lists zipped in order" are not decided',
-                     'typed getters are bounded Kani proofs (3-entry headers)'],
-        explanation='parse_header (verbatim, incl. the real decode loop): for EVERY entry of every accepted header the stored data equals an independent decoding of the store bytes written as spec functions (strings up to the first NUL, integer arrays big-endian at full length, string / i18n arrays item by item with terminators skipped, binary verbatim) - postcondition decoded(entry, store), unbounded; typed getters return the first entry with the tag iff its type matches, else the documented error (Kani, 3 entries); the 18 scalar accessors of PackageMetadata (name, version, release, epoch, arch, vendor, url, vcs, license, packager, build host/time, cookie, source rpm, summary, description, group, installed size) return what the getter gives for the rpm tag number they are named after; get_installed_size prefers LONGSIZE then SIZE.',
+                     'typed getters: the look-up find_entry_or_err (Iterator::find with a closure) is a bounded Kani proof (3-entry headers, symbolic tags in any order) and an assumed contract in Verus; everything after it - the IndexData::as_* projections and the six getters the accessors use - is proved for headers of any size in unit c05_getters (error payload strings dropped, R12)'],
+        explanation='parse_header (verbatim, incl. the real decode loop): for EVERY entry of every accepted header the stored data equals an independent decoding of the store bytes written as spec functions (strings up to the first NUL, integer arrays big-endian at full length, string / i18n arrays item by item with terminators skipped, binary verbatim) - postcondition decoded(entry, store), unbounded; typed getters return the data of the first entry with the tag iff its type matches, else the documented error (unit c05_getters on the verbatim getters and as_* projections, for any number of entries, over the find_entry_or_err contract that K:k_getters_* establish for 3 entries); the 18 scalar accessors of PackageMetadata (name, version, release, epoch, arch, vendor, url, vcs, license, packager, build host/time, cookie, source rpm, summary, description, group, installed size) return what the getter gives for the rpm tag number they are named after; get_installed_size prefers LONGSIZE then SIZE.',
     ),
     'C07': dict(
         level='proof', verus=['c07_payload', 'c07_iter', 'c09_blocks'],
@@ -192,8 +192,8 @@ PROPS['C19'] = dict(
     level='proof', verus=['c19_caps'],
     trusted_base=[A_TOOLS, A_EXTRACT,
                   'A-STR: str::trim, split_whitespace, find([chars]), slicing at the found offset, chars(), starts_with(char), is_empty with their documented meaning, stated as contracts of helper functions the calls are rewritten to (R32); byte offsets and character indices are related by an abstract correspondence (offset 0 = character 0, the offset returned by find is a character boundary)',
-                  'validate_capset (the name-list check: split(","), to_uppercase, lookup in the CAPS table) is NOT under contract: its verdict is an uninterpreted predicate capset_ok of the name list'],
-    assumptions=['PARTIAL: decided is the clause structure - the text is accepted EXACTLY WHEN it is non-empty after trimming and every whitespace-separated clause (std split_whitespace) contains an operator, starts with a name list unless the CLAUSE starts with "=", has a name list validate_capset accepts and a suffix over {=,+,-,e,i,p} without adjacent operators; accepted text is kept verbatim (FileCaps::new / from_str); no panic, the debug_assert! in validate_suffix included (it is a proved assertion under the precondition its only caller establishes). NOT decided: which name lists are acceptable ("known capability names or all, case-insensitively")',
+                  'the CONTENT of the CAPS table (which names are known) and to_uppercase are not examined: known_cap(name) is an uninterpreted predicate; std str::split(",") and eq_ignore_ascii_case("all") are helper contracts'],
+    assumptions=['PARTIAL: decided is the clause structure - the text is accepted EXACTLY WHEN it is non-empty after trimming and every whitespace-separated clause (std split_whitespace) contains an operator, starts with a name list unless the CLAUSE starts with "=", has a name list validate_capset accepts and a suffix over {=,+,-,e,i,p} without adjacent operators; accepted text is kept verbatim (FileCaps::new / from_str); no panic, the debug_assert! in validate_suffix included (it is a proved assertion under the precondition its only caller establishes). validate_capset: a name list is accepted exactly when it is empty, equals "all" ignoring ASCII case, or EVERY comma-separated piece - an empty one included - is a known capability name. NOT decided: which names the table knows',
                  'R33: debug_assert!(c) is rewritten to a proof obligation assert(c)',
                  'the error message strings are replaced by an arbitrary String (R12)'],
     explanation='Verbatim bodies of validate_caps_text, validate_suffix, FileCaps::new and FileCaps::from_str. validate_suffix(s) is Ok iff every character of s is an operator or a flag and no two operators are adjacent; validate_caps_text(s) is Ok iff trimmed(s) is non-empty and clause_ok holds for every token, where clause_ok is written from the statement (first operator position, name list before it unless the clause starts with "=", suffix after it). On the tree before e7d12cb both directions fail: "=e +p" was accepted and "cap_chown=e =p" rejected.',
